@@ -48,7 +48,10 @@ def main(tier, seed, replay=None):
         'the token type recorded last for an offset is the lexer\'s decision '
         '(the parser may make it re-read a `/` as a regex)']
     build_scratch()
-    themes = gen.run_themes(THEMES, tier, rep, jobs=6)
+    themes = gen.run_themes(THEMES, tier, rep, jobs=6, overrides={
+        n: {'layer2': 'slash'} for n in THEMES})
+    for n in THEMES:
+        pass
     rep.mark('generated')
     plain = [k for k in core.PLAIN_KINDS]
     brk = core.BREAK_KINDS
@@ -86,10 +89,32 @@ def main(tier, seed, replay=None):
                 text = concretise(s, seed=seed + n + v,
                                   pools='rich' if v % 2 else 'basic',
                                   gaps=gaps, brk=brk[(n + v) % len(brk)])
-                work.append((text, spec_tree(s), core.dictated_slashes(s)))
+                ds = core.dictated_slashes(s)
+                # SlashImpl.tla: <<token index, first, final, dictated>>
+                mod = [[s.tokens[m[0] - 1].start, m[1], m[2]]
+                       for m in (s.model or [])]
+                work.append((text, spec_tree(s), ds, mod))
                 meta.append((s, text, kinds, [t.start for t in s.tokens]))
-    res = impl.pmap(core.judge, work, chunk=400)
+    res3 = impl.pmap(core.judge_with_model, work, chunk=400)
     rep.mark('judged')
+    res = []
+    drift = 0
+    modelwrong = 0
+    for w, r3 in zip(work, res3):
+        if r3 and r3[0] == 'timeout':
+            res.append(r3)
+            continue
+        res.append(r3[0])
+        if r3[1]:
+            drift += 1
+            if drift <= 3:
+                rep.notes.setdefault('drift_examples', []).append(
+                    {'text': w[0], 'model': w[3], 'code': r3[2]})
+        if any(m[2] == 'wrong' for m in w[3]):
+            modelwrong += 1
+    # spec -> code conformance of SlashImpl.tla (reported, not a verdict)
+    rep.notes['drift_model_vs_code'] = drift
+    rep.notes['model_says_wrong_reading'] = modelwrong
     for (s, text, kinds, starts), r in zip(meta, res):
         rep.count('evaluations')
         if r is None:
